@@ -137,6 +137,25 @@ def run_c14(tier, out):
             sc_err = 'schema choice stream: %s' % str(exc)[-500:]
     else:
         sc_err = 'Spec/Fields.v did not build'
+    # which query parameters / request groups GET /allocation_candidates accepts at each version: the real handler (search replaced
+    # by a capture) against Model/DecodeQC.v - whose accepted set is what the schemas and lib.py rules of that version allow - on
+    # fixed orphan-group cases on both sides of every introduction and on generated query strings
+    if common.vo_fresh('Model/DecodeQC.v'):
+        try:
+            from harness import decodeqc
+            dq_n, dq_bad, _first, dq_stats = decodeqc.run(common.seed() + 14, 150 if tier == 'quick' else 4000)
+            stats['n'] += dq_n
+            for b in dq_stats.get('bad_cases', [])[:3]:
+                payload = {'kind': 'query-acceptance', 'version': b['version'], 'query': b['query'], 'answer': b['answer'],
+                           'broken': ps.get('broken')}
+                text = ('GET /allocation_candidates?%s at 1.%d is %s; the rules of that version say otherwise (or decode it '
+                        'differently)' % (b['query'][:200], b['version'], b['answer']))
+                out.violation(payload, text)
+                viols.append((payload, text))
+        except Exception as exc:      # noqa
+            viols_err = 'query acceptance stream: %s' % str(exc)[-300:]
+            out.violation({'kind': 'correspondence-broken', 'stream': 'query acceptance', 'error': viols_err}, viols_err, no_input=True)
+            viols.append(({'kind': 'correspondence-broken'}, viols_err))
     # response members (body members by path, headers, status) per operation and version: the serialiser model
     # Spec/RespFields.v:resp_members that C14_response_fields / C14_no_undocumented_response_member compare with the documented
     # table, against one real successful request per operation and version
